@@ -30,8 +30,10 @@ func BreakerHandler(method, path string, metrics *stat.Metrics) func(handler htt
 			}
 
 			cw := &response.WithCodeResponseWriter{Writer: w}
+			// 处理器 panic 时按失败记录（无论此前写入了什么状态码），panic 继续向上传递
+			panicked := true
 			defer func() {
-				if cw.Code < http.StatusInternalServerError {
+				if !panicked && cw.Code < http.StatusInternalServerError {
 					promise.Accept()
 				} else {
 					promise.Reject(fmt.Sprintf("%d %s", cw.Code, http.StatusText(cw.Code)))
@@ -39,6 +41,7 @@ func BreakerHandler(method, path string, metrics *stat.Metrics) func(handler htt
 			}()
 
 			next.ServeHTTP(cw, r)
+			panicked = false
 		})
 	}
 }
